@@ -58,6 +58,7 @@ type Disk struct {
 	FailKind  OpKind
 	FailNth   int
 	FailShort bool // a failing write first writes a strict prefix of its data
+	FailFull  bool // a failing write first writes ALL of its data and then reports the error (the device took the bytes, the call failed)
 	seenKind  int
 	Fired     int
 
@@ -146,6 +147,7 @@ func (d *Disk) ArmFault(kind OpKind, nth int, short bool) {
 	defer d.mu.Unlock()
 	d.Armed, d.FailKind, d.FailNth, d.FailShort, d.seenKind = true, kind, nth, short, 0
 	d.FailAtByte, d.seenBytes = -1, 0
+	d.FailFull = false
 }
 
 // ArmWriteFaultAtByte arms a write fault selected by byte position (see FailAtByte). CoalesceWrites only.
@@ -205,6 +207,9 @@ func (d *Disk) writeCoalesced(path string, p []byte, do func(q []byte) (int, err
 				fail = true
 				if d.FailShort && len(p) > 1 {
 					cut = len(p) / 2
+				}
+				if d.FailFull {
+					cut = len(p)
 				}
 			}
 		}
